@@ -248,8 +248,53 @@ def _recv_root(body, d, op):
     return roots
 
 
+SHRINKERS = ("::remove", "::pop", "::clear", "::truncate", "::drain", "::retain", "::split_off", "::swap_remove", "::pop_front",
+             "::pop_back", "::dedup", "mem::take", "mem::replace", "mem::swap", "::append", "::retain_mut")
+
+
+def _mutated_between(body, c, d, g, bb, recv_roots):
+    """may the collection shrink / be replaced on a path from guard block g to the use at bb?"""
+    between = (c.reachable_after(g) & _reaching(c, bb)) | {bb}
+    root_locals = {r[0] for r in recv_roots if isinstance(r, tuple) and len(r) == 2 and isinstance(r[0], int)}
+    for x in between:
+        bl = body.blocks[x]
+        for st in bl.stmts:
+            if st.kind == 'a' and st.place.is_local() and st.place.local in root_locals:
+                return True
+        t = bl.term
+        if t.kind == "call" and x != bb:
+            cal = t.best_callee() or t.callee or ""
+            if cal.endswith(SHRINKERS) and t.args and (_recv_root(body, d, t.args[0]) & recv_roots):
+                return True
+            if t.dest is not None and t.dest.is_local() and t.dest.local in root_locals:
+                return True
+    return False
+
+
+_reach_cache = {}
+
+
+def _reaching(c, bb):
+    """blocks from which bb is reachable"""
+    key = (id(c), bb)
+    r = _reach_cache.get(key)
+    if r is None:
+        seen = {bb}
+        stack = [bb]
+        while stack:
+            x = stack.pop()
+            for p in c.pred[x]:
+                if p not in seen:
+                    seen.add(p)
+                    stack.append(p)
+        r = seen
+        _reach_cache[key] = r
+    return r
+
+
 def _len_lower_bound(body, c, d, bb, recv_roots):
-    """greatest lower bound on len(recv) established by dominating tests on the path to bb"""
+    """greatest lower bound on len(recv) established by dominating tests on the path to bb (a test is void
+    if the collection may shrink or be replaced between the test and the use)"""
     lb = 0
     if not recv_roots:
         return 0
@@ -258,6 +303,8 @@ def _len_lower_bound(body, c, d, bb, recv_roots):
             continue
         t = body.blocks[g].term
         if t.kind != "switch":
+            continue
+        if _mutated_between(body, c, d, g, bb, recv_roots):
             continue
         succs = {}
         for v, tg in t.targets:
@@ -479,6 +526,24 @@ def inventory(prog, chk, rid, scope=None, pid="C01", crates=SHIPPED):
         residual.setdefault((s.fn, s.kind), []).append(s)
     for (fn, kind), ss in sorted(residual.items()):
         e = table.get((fn, kind))
+        if e is not None and e.get("operand_via") and len(ss) <= e["count"]:
+            # the reason of this entry rests on where an operand comes from: re-verify it on the current code
+            from dataflow import flow_back
+            bad = None
+            for x in ss:
+                dd = defs_of(x.body)
+                vias = set()
+                for a in x.term.args:
+                    for f in flow_back(x.body, dd, a, all_args=True):
+                        vias |= set(f.via)
+                for need in e["operand_via"]:
+                    if not any(v.endswith(need) for v in vias):
+                        bad = (x, need)
+            if bad is not None:
+                counts["violations"] += len(ss)
+                chk.fail(rid, fn, kind, "%s: the reviewed reason for `%s` (%s) requires an operand derived from `%s`, which the site at %s:%s no longer has"
+                         % (fn, kind, e["reason"], bad[1], bad[0].file, bad[0].line))
+                continue
         if e is not None and len(ss) <= e["count"]:
             counts["table"] += len(ss)
             chk.ok(rid, "%s|%s" % (fn, kind), "reviewed (%d site%s): %s" % (len(ss), "" if len(ss) == 1 else "s", e["reason"]), nontrivial=False, function=fn)
